@@ -25,7 +25,7 @@ from . import terms as T
 from . import funclib as FL
 from .common import run_cases, model_output, VERIF, to_fraction
 
-GEN_DEPS = []
+GEN_DEPS = ["Classes.v"]      # Props/C07.v compares class_forced with the force_reuse_<Cls> read from the constructors
 TRUSTED = [
     "Model/Func.v models PEPit/function.py (constructor, + - * / unary-, _is_already_evaluated_on_point, "
     "_separate_leaf_functions_regarding_their_need_on_point, add_point, oracle, gradient, value, stationary_point, "
@@ -103,6 +103,12 @@ def exhaustive_cases(tier):
         cases.append((universe(False, True, [(0, 2.0 ** -60), (1, -1)]), body, "guarded"))
     for ops in scale_cases():
         cases.append((ops, (), "guarded"))
+    # leaves that are instances of shipped classes (declared flag forwarded or forced), alone and in sums
+    for body in sequences(alphabet([X0]), 2):
+        cases.append((class_universe("ConvexIndicatorFunction", True, "ConvexFunction", False, [(0, 1), (1, 1)]), body, "guarded"))
+        cases.append((class_universe("SmoothStronglyConvexFunction", False, "ConvexIndicatorFunction", False, [(0, 1), (1, 2)]),
+                      body, "guarded"))
+        cases.append((class_universe("ConvexFunction", True, "LipschitzOperator", False, [(0, 0.5), (1, -1)]), body, "guarded"))
     # cancelling weights are pruned by Function.__add__ (repaired F-C07a): f0 + f1 - f1 is an ordinary composite
     c_len = 2 if tier == "quick" else 3
     for r0 in (True, False):
@@ -129,6 +135,68 @@ def exhaustive_cases(tier):
             cases.append(([("NewPoint",), ("NewLeaf", r0), ("NewLeaf", r1), ("Direct", [(0, 1), (1, 0)], r0 and r1)],
                           body, "zero"))                                                   # {f0: 1, f1: 0}
     return cases
+
+
+def class_universe(c0, d0, c1, d1, terms):
+    return [("NewPoint",), ("NewLeaf", d0, c0), ("NewLeaf", d1, c1), ("Combine", terms)]
+
+
+def class_tie():
+    """every shipped class x reuse_gradient in {False, True, default}: the effective flag is (class forces True) or
+    (declared), the forced flags read from the source (Gen/Classes.v) are the specified ones, and on the real object
+    two gradient queries at one point return the SAME gradient object iff the effective flag is True (the value
+    object is always the same).  Returns (number of checks, problems)."""
+    import re
+    from PEPit import PEP, Point
+    from . import classes as C
+    from .common import COQ
+    problems, n = [], 0
+    try:
+        src = open(os.path.join(COQ, "Gen", "Classes.v")).read()
+    except OSError:
+        src = ""
+    read = dict((m.group(1), m.group(2) == "true")
+                for m in re.finditer(r"Definition force_reuse_(\w+) : bool := (true|false)\.", src))
+    rng = random.Random(7)
+    for name in C.ALL_CLASSES:
+        spec = name in FL.FORCED_CLASSES
+        n += 1
+        if read.get(name) is not spec:
+            problems.append(dict(kind="class-flag", cls=name, specified_forced=spec, read_from_constructor=read.get(name),
+                                 why="the constructor neither forces reuse_gradient=True nor forwards the declared value "
+                                     "as specified for this class (Gen/Classes.v, fail-closed)"))
+        for declared in (False, True, None):
+            n += 1
+            try:
+                pep = PEP()
+                kwargs = dict(C.draw_params(rng, name))
+                if name == "BlockSmoothConvexFunction":
+                    kwargs["partition"] = pep.declare_block_partition(d=kwargs.pop("d"))
+                if declared is not None:
+                    kwargs["reuse_gradient"] = declared
+                f = pep.declare_function(C.get_class(name), **kwargs)
+                # default of the argument: False, except for the forcing classes and NegativelyComonotoneOperator
+                # (documented signature default True, forwarded)
+                want = spec or (bool(declared) if declared is not None else name == "NegativelyComonotoneOperator")
+                x = Point()
+                g1, v1 = f.oracle(x)
+                g2 = f.gradient(x)
+                v2 = f.value(x)
+                bad = None
+                if bool(f.reuse_gradient) != want:
+                    bad = "effective reuse_gradient is not (class forces True) or (declared value)"
+                elif (g1 is g2) != want:
+                    bad = "two gradient queries at one point: same object iff the class is (declared) differentiable"
+                elif v1 is not v2:
+                    bad = "two value queries at one point returned different objects"
+                if bad:
+                    problems.append(dict(kind="class-flag", cls=name, declared=declared, effective=bool(f.reuse_gradient),
+                                         expected=want, same_gradient_object=(g1 is g2), why=bad))
+            except Exception as e:
+                problems.append(dict(kind="class-flag", cls=name, declared=declared, error=repr(e)[:300]))
+    # behaviour on the real object first (a concrete constructor call), what was read from the source after it
+    problems.sort(key=lambda p: 0 if "declared" in p else 1)
+    return n, problems
 
 
 def scale_cases():
@@ -300,6 +368,8 @@ class Gen(object):
         if r < 0.06:
             return self.emit(("NewExpr",), check)
         if r < 0.11 and nleaf < 4:
+            if rng.random() < 0.4:
+                return self.emit(("NewLeaf", rng.random() < 0.5, rng.choice(sorted(FL.LEAF_CLASS_PARAMS))), check)
             return self.emit(("NewLeaf", rng.random() < 0.5), check)
         if r < 0.21 and ncomp < 3:
             op = self.gen_combine()
@@ -350,7 +420,10 @@ class Gen(object):
         if rng.random() < 0.5:
             self.emit(("NewPoint",), check)
         for _ in range(rng.choice([1, 2, 2, 3])):
-            self.emit(("NewLeaf", rng.random() < 0.5), check)
+            if rng.random() < 0.3:
+                self.emit(("NewLeaf", rng.random() < 0.5, rng.choice(sorted(FL.LEAF_CLASS_PARAMS))), check)
+            else:
+                self.emit(("NewLeaf", rng.random() < 0.5), check)
         while len(self.ops) < length:
             self.step(check)
         inp = "(%s, %s)" % ("true" if self.full else "false", FL.coq_list(self.lits))
@@ -533,6 +606,8 @@ def known_findings(known):
 
 
 def replay(payload):
+    if payload.get("kind") == "class-flag":
+        return any(p.get("cls") == payload.get("cls") for p in class_tie()[1])
     if "ops" not in payload:
         return False
     ops = [FL.detuple(o) for o in payload["ops"]]
@@ -655,6 +730,10 @@ def correspondence(tier, seed, corpus=()):
             mism.append(dict(kind="model-differs", ops=s["opss"][i], implementation=s["cases"][i][1],
                              model=model_output(IMPORTS, RUN, s["cases"][i][0])[:3000]))
         problems = list(s["regress"][:2])
+        if name == "guarded":
+            n_cls, cls_problems = class_tie()
+            problems += cls_problems[:2]
+            s["class_checks"], s["class_problems"] = n_cls, len(cls_problems)
         seen = set()
         for ops, err in s["raised"][:2]:
             # every op of these streams is a documented call on valid arguments: it must not raise
@@ -722,7 +801,8 @@ def correspondence(tier, seed, corpus=()):
             mismatches=mism, n_mismatch=len(bad), problems=problems, n_invariant_violations=len(s["viols"]),
             n_implementation_raised=len(s["raised"]), n_violations_not_explained_by_known_triggers=s["n_unexplained"],
             samples=[dict(ops=s["opss"][i], final_state=s["cases"][i][1][1]) for i in sample_i],
-            n_regression_failed=len(s["regress"]),
+            n_regression_failed=len(s["regress"]), class_flag_checks=s.get("class_checks", 0),
+            n_class_flag_problems=s.get("class_problems", 0),
             distribution=dict(op_histogram=dict(sorted(s["hist"].items())), exhaustive_sequences=s["exhaustive"],
                               regression_sequences=s["regressions"],
                               random_sequences=s["randoms"], len_min=min(s["lens"]), len_max=max(s["lens"]),
